@@ -77,7 +77,7 @@ class Gen:
                 if tgt == me and kind == "svc" and self.masked:
                     continue              # mask of svc-addcb-keyerror
                 again = [op for (tg, op) in added if tg == tgt]
-                if again and r.random() < 0.4:
+                if again and r.random() < 0.5:
                     # the same function once more with the other argument version: the later add replaces it
                     old = r.choice(again)
                     p.append(old[:3] + [3 - old[3]] + old[4:])
